@@ -12,5 +12,5 @@ CFG = {
             "three inputs (Parse must return the table error).  A case is non-trivial when the table is conflict-free and at least one input is accepted and one rejected; "
             "distinct = distinct grammars.",
     "assumptions": ["the lexer is modelled as the token list followed by io.EOF forever; callbacks never fail",
-                    "the parser loop runs on fuel in the model (20000 steps in the driver); exhaustion would be reported as HANG"],
+                    "the parser loop runs on fuel in the model (20000 steps in the driver); C12_terminates proves that a long enough run always finishes and C12_fuel_monotone that its result no longer changes; exhaustion in the driver would be reported as HANG"],
 }
